@@ -740,6 +740,12 @@ class Fx:
             for p in self.as_path(arg(1, 'dst') or U):
                 self.emit('write', p, e, fi, '%s from %s' % (ext, arg(0, 'src')))
             return U
+        if ext in ('os.link', 'os.symlink'):
+            # dst becomes another name of src: every later write through one name writes the other
+            for p in self.as_path(arg(1, 'dst') or U):
+                self.emit('alias', p, e, fi, '%s from %s' % (ext, arg(0, 'src')))
+                self.emit('write', p, e, fi, '%s from %s' % (ext, arg(0, 'src')))
+            return U
         if ext in ('shutil.move', 'os.rename', 'os.replace'):
             for p in self.as_path(arg(0, 'src') or U):
                 self.emit('delete', p, e, fi, ext)
@@ -809,6 +815,15 @@ class Fx:
                 return K(None)
             if m in ('unlink', 'rmdir'):
                 self.emit('delete', b, e, fi, 'Path.%s' % m)
+                return K(None)
+            if m in ('hardlink_to', 'symlink_to'):
+                self.emit('alias', b, e, fi, 'Path.%s %s' % (m, args[0] if args else '?'))
+                self.emit('write', b, e, fi, 'Path.%s %s' % (m, args[0] if args else '?'))
+                return K(None)
+            if m == 'link_to':
+                for p in self.as_path(args[0] if args else U):
+                    self.emit('alias', p, e, fi, 'Path.link_to from %s' % b)
+                    self.emit('write', p, e, fi, 'Path.link_to from %s' % b)
                 return K(None)
             if m in ('rename', 'replace'):
                 self.emit('delete', b, e, fi, 'Path.%s (source)' % m)
